@@ -748,4 +748,5 @@ def fixed_cases(tier="quick"):
         out.append(("fixed-fib-plastic-croots", sysd(["u0", "u1", "u2", "u3", "u4"], A, [0] * 5, [1, 0, 1, 0, 2],
                                                      [{"force_cyclic": False, "numeric_croots": True, "numeric_eps": "1e-10"}],
                                                      {"profile:fixed", "companion:fib", "companion:plastic", "root-options"})))
+        out[-1][1].update(run_budget=100, timeout=230)   # per-case watchdog override understood by the harness
     return out
